@@ -39,8 +39,8 @@ VAL_NOTE = ('Theorems are about Model/Values.v (parameter value grammar: normali
 CHECKS.update({
     'C07': dict(text='Proved: the serialised form determines class, every field, value types, enum members and nested task parameters at any depth (C07_ser_injective, guard: no dict parameter uses the marker keys), hence distinct tasks get distinct keys (C07_key_injective, premises on dumps/sha1), and the key survives re-normalisation, pickling and reconstruction (C07_key_stable_*). The unguarded statement is refuted in the model (C07_unguarded_refuted) and on the implementation: known finding D9. Keys recomputed in fresh interpreters under other hash seeds, fed to LocalStorage, compared across same-named and prefix-named types.',
                 design='6/C07', technique='Coq injectivity proof by nested induction + differential correspondence of Serializer', note=VAL_NOTE),
-    'C09': dict(text='Proved: deserialising the serialised form returns the same task for every parameter tree (C09_roundtrip; mutual/nested induction), for the recursive deserialize_value read from the source; refuted for a shallow one (C09_shallow_refuted). Store-level clauses (exactly once, other types/formats contribute nothing) are checked by the cache history harness under C08/C09 monitors.',
-                design='6/C09', technique='Coq round-trip proof + differential correspondence of Serializer.deserialize_task', note=VAL_NOTE),
+    'C09': dict(text='Proved: deserialising the serialised form returns the same task for every parameter tree (C09_roundtrip; mutual/nested induction), for the recursive deserialize_value read from the source; refuted for a shallow one (C09_shallow_refuted). The listing itself (Lab.cached_tasks over load_task/load_metadata, Model/Listing.v): over a storage holding what save wrote for any mix of types and cache formats, cached_tasks(types) returns exactly the stored tasks of the requested types, in storage order, each once however often a type is requested, structurally as stored, with the stored result_meta, and never raises (C09_listing_exact); entries of another cache class are never listed and an entry contributes at most one task whatever the storage holds (C09_other_format_not_listed, C09_listing_at_most_once). Tie: real storages filled by runs and salted with foreign/damaged entries, read back from disk and handed to the model with each query.',
+                design='6/C09', technique='Coq round-trip and listing-exactness proofs + differential correspondence of Serializer.deserialize_task and Lab.cached_tasks', note=VAL_NOTE),
     'C15': dict(text='Proved: normalisation is idempotent and its output type has no mutable constructor; exactly the trees containing an unsupported object or non-string key are rejected (C15_rejects_exactly); == is reflexive on NaN-free values and false across classes; a pickled copy equals the freshly constructed task incl. what post_init derives and carries no results/context (C15_pickle_copy, for the __setstate__ read from the source). Symmetry/transitivity of == and hash consistency are validated by correspondence only (Python scalar semantics).',
                 design='6/C15', technique='Coq proofs over value grammar (nested induction) + differential correspondence of constructor/==/pickle', note=VAL_NOTE),
 })
